@@ -16,6 +16,7 @@ type Edge struct {
 	S, T int            // node ids
 	A    map[string]any // action label + arguments
 	O    []any          // expected outputs (set of records)
+	Ev   []any          // expected lifecycle events of the step (specs with a ledger)
 	TS   any            // target state
 	SS   any            // source state
 	Cls  string         // (action, outcome) class
@@ -80,12 +81,13 @@ func LoadGraph(path string) (*Graph, error) {
 			S any            `json:"s"`
 			A map[string]any `json:"a"`
 			O []any          `json:"o"`
+			E []any          `json:"ev"`
 			T any            `json:"t"`
 		}
 		if err := json.Unmarshal([]byte(un[5:]), &raw); err != nil {
 			return nil, fmt.Errorf("edge: %w", err)
 		}
-		e := Edge{S: node(raw.S), T: node(raw.T), A: raw.A, O: raw.O, TS: raw.T, SS: raw.S}
+		e := Edge{S: node(raw.S), T: node(raw.T), A: raw.A, O: raw.O, Ev: raw.E, TS: raw.T, SS: raw.S}
 		if g.Init < 0 {
 			g.Init = e.S // TLC's breadth-first search starts at Init
 		}
